@@ -2,6 +2,7 @@ package main
 
 import (
 	"fmt"
+	"os"
 	"strings"
 	"go/token"
 	"go/types"
@@ -46,9 +47,18 @@ func (fx *FuncExec) call(ps *pathState, x *ssa.Call) {
 		}
 	default:
 		if !cc.IsInvoke() {
-			if fv, ok := fx.val(st, cc.Value).(FuncV); ok {
-				callee = fv.Fn
-				bindings = fv.Bindings
+			callee = fx.staticCallee(cc)
+			if callee != nil && callee != fx.fn {
+				// closure held in a local variable: its bindings are in the stored value
+				if fv, ok := fx.val(st, cc.Value).(FuncV); ok {
+					bindings = fv.Bindings
+				}
+			}
+			if callee == nil {
+				if fv, ok := fx.val(st, cc.Value).(FuncV); ok {
+					callee = fv.Fn
+					bindings = fv.Bindings
+				}
 			}
 		}
 	}
@@ -77,6 +87,10 @@ func (fx *FuncExec) call(ps *pathState, x *ssa.Call) {
 		result = st.freshVal(x.Type(), x.Name(), 0)
 	}
 	st.regs[x] = result
+	if ps.callRes == nil {
+		ps.callRes = map[string]Val{}
+	}
+	ps.callRes[site] = result
 	vars := map[string]Val{"result": result}
 	if tv, ok := result.(TupleV); ok {
 		for i, e := range tv.E {
@@ -118,6 +132,54 @@ func copyVars(v map[string]Val) map[string]Val {
 	return n
 }
 
+// staticCallee resolves the function a call goes to when that is statically known:
+// direct calls, closure literals, the self-binding of a recursive closure, and local
+// function variables that are assigned exactly one function.
+func (fx *FuncExec) staticCallee(cc *ssa.CallCommon) *ssa.Function {
+	if cc.IsInvoke() {
+		return nil
+	}
+	switch f := cc.Value.(type) {
+	case *ssa.Function:
+		return f
+	case *ssa.MakeClosure:
+		return f.Fn.(*ssa.Function)
+	case *ssa.UnOp:
+		if f.Op != token.MUL {
+			return nil
+		}
+		switch a := f.X.(type) {
+		case *ssa.FreeVar:
+			if fx.selfVars[a] {
+				return fx.fn
+			}
+		case *ssa.Alloc:
+			var target *ssa.Function
+			for _, ref := range *a.Referrers() {
+				st, ok := ref.(*ssa.Store)
+				if !ok || st.Addr != ssa.Value(a) {
+					continue
+				}
+				var fn *ssa.Function
+				switch v := st.Val.(type) {
+				case *ssa.MakeClosure:
+					fn = v.Fn.(*ssa.Function)
+				case *ssa.Function:
+					fn = v
+				default:
+					return nil
+				}
+				if target != nil && target != fn {
+					return nil
+				}
+				target = fn
+			}
+			return target
+		}
+	}
+	return nil
+}
+
 // contractFor finds the contract of a callee (same package: contract file;
 // other packages: extern declarations).
 func (pk *PkgCtx) contractFor(f *ssa.Function) (string, *FuncContract) {
@@ -157,7 +219,19 @@ func (fx *FuncExec) callWithContract(ps *pathState, x *ssa.Call, callee *ssa.Fun
 		}
 	}
 	pre := st.snapshot()
-	env := &SpecEnv{st: st, old: pre, vars: vars}
+	var envFx *FuncExec
+	if callee == fx.fn {
+		// recursive call of a closure: captured variables are the same cells
+		envFx = fx
+		for _, fv := range fx.fn.FreeVars {
+			if _, ok := vars[fv.Name()]; !ok {
+				if v, ok := fx.freeVarValue(fv.Name(), st); ok {
+					vars[fv.Name()] = v
+				}
+			}
+		}
+	}
+	env := &SpecEnv{st: st, old: pre, vars: vars, fx: envFx}
 	if fx.c.assumed == nil {
 		fx.c.assumed = map[string]bool{}
 	}
@@ -217,7 +291,14 @@ func (fx *FuncExec) callWithContract(ps *pathState, x *ssa.Call, callee *ssa.Fun
 			vars[n] = result
 		}
 	}
-	env = &SpecEnv{st: st, old: pre, vars: vars}
+	if callee == fx.fn {
+		for _, fv := range fx.fn.FreeVars {
+			if v, ok := fx.freeVarValue(fv.Name(), st); ok {
+				vars[fv.Name()] = v
+			}
+		}
+	}
+	env = &SpecEnv{st: st, old: pre, vars: vars, fx: envFx}
 	for _, cl := range con.Ensures {
 		t := env.boolTerm(cl.Expr)
 		fx.noteSpecErr(env, cl)
@@ -386,6 +467,7 @@ func (fx *FuncExec) havocLoop(ps *pathState, li *LoopInfo) {
 	}
 	var targets []target
 	heapAll := false
+	var heapWhy []string
 	// locals assigned in the loop
 	assigned := map[*ssa.Alloc]bool{}
 	var blocks []*ssa.BasicBlock
@@ -529,18 +611,22 @@ func (fx *FuncExec) havocLoop(ps *pathState, li *LoopInfo) {
 					targets = append(targets, target{p: p})
 				} else {
 					heapAll = true
+					heapWhy = append(heapWhy, "1")
 				}
 			} else {
 				heapAll = true
+					heapWhy = append(heapWhy, "2")
 			}
 		case *types.Slice:
 			if id, ok := rootSlice(v, 0); ok {
 				targets = append(targets, target{arr: id})
 			} else {
 				heapAll = true
+					heapWhy = append(heapWhy, "3")
 			}
 		case *types.Interface, *types.Signature, *types.Map:
 			heapAll = true
+					heapWhy = append(heapWhy, "4")
 		}
 	}
 	for _, b := range blocks {
@@ -559,6 +645,7 @@ func (fx *FuncExec) havocLoop(ps *pathState, li *LoopInfo) {
 					targets = append(targets, target{p: p})
 				} else if !storesToLoopLocal(x.Addr, li) {
 					heapAll = true
+					heapWhy = append(heapWhy, "5")
 				}
 			case *ssa.MapUpdate:
 				if u, ok := x.Map.(*ssa.UnOp); ok && u.Op == token.MUL {
@@ -568,6 +655,7 @@ func (fx *FuncExec) havocLoop(ps *pathState, li *LoopInfo) {
 					}
 				}
 				heapAll = true
+					heapWhy = append(heapWhy, "6")
 			case *ssa.Call:
 				cc := x.Common()
 				if bi, ok := cc.Value.(*ssa.Builtin); ok {
@@ -577,6 +665,7 @@ func (fx *FuncExec) havocLoop(ps *pathState, li *LoopInfo) {
 							targets = append(targets, target{arr: id})
 						} else {
 							heapAll = true
+					heapWhy = append(heapWhy, "7")
 						}
 					case "delete", "clear":
 						if u, ok := cc.Args[0].(*ssa.UnOp); ok && u.Op == token.MUL {
@@ -586,6 +675,7 @@ func (fx *FuncExec) havocLoop(ps *pathState, li *LoopInfo) {
 							}
 						}
 						heapAll = true
+					heapWhy = append(heapWhy, "8")
 					}
 					continue
 				}
@@ -598,6 +688,8 @@ func (fx *FuncExec) havocLoop(ps *pathState, li *LoopInfo) {
 					for _, bnd := range f.Bindings {
 						addPtrArg(bnd)
 					}
+				case *ssa.UnOp:
+					callee = fx.staticCallee(cc)
 				}
 				if callee != nil && callee.Name() == "ssa:deferstack" {
 					continue
@@ -609,12 +701,34 @@ func (fx *FuncExec) havocLoop(ps *pathState, li *LoopInfo) {
 				if con != nil && len(con.Modifies) == 0 {
 					continue // pure by contract
 				}
+				if con != nil && callee == fx.fn {
+					// recursive call: its frame is this function's own modifies clause
+					env := &SpecEnv{st: st, old: st, vars: map[string]Val{}, fx: fx}
+					for _, fv := range fx.fn.FreeVars {
+						if v, ok := fx.freeVarValue(fv.Name(), st); ok {
+							env.vars[fv.Name()] = v
+						}
+					}
+					allOK := true
+					for _, cl := range con.Modifies {
+						if p, _, ok := env.lvalue(cl.Expr); ok && p.Obj != 0 {
+							targets = append(targets, target{p: p})
+						} else {
+							allOK = false
+						}
+					}
+					if allOK {
+						continue
+					}
+				}
 				// with or without contract: whatever is reachable from pointer-like arguments
 				if cc.IsInvoke() {
 					heapAll = true
+					heapWhy = append(heapWhy, "9")
 				}
 				if callee == nil && !cc.IsInvoke() {
 					heapAll = true
+					heapWhy = append(heapWhy, "10")
 				}
 				for _, a := range cc.Args {
 					addPtrArg(a)
@@ -623,6 +737,9 @@ func (fx *FuncExec) havocLoop(ps *pathState, li *LoopInfo) {
 		}
 	}
 	if heapAll {
+		if os.Getenv("GVC_DEBUG") != "" {
+			fmt.Fprintf(os.Stderr, "havocLoop %s loop#%d: heapAll because %v\n", fx.key, li.ord, heapWhy)
+		}
 		fx.havocHeap(st)
 	}
 	for _, t := range targets {
